@@ -296,7 +296,7 @@ inline IoEntry make_entry()
     };
     e.roundtrip = [](Report & R, bool thorough) {
         const std::string key = std::string("roundtrip:") + S::key;
-        for (int var = 0; var < 3; ++var) {
+        for (int var = 0; var < 4; ++var) {  // ordinary, special values, 1-cell extents, empty field
             covfie::field<B> f = S::make(var);
             long npat = 1;
             std::vector<long> pats = {-1, -2, -7};
